@@ -108,10 +108,9 @@ func removeContainer(ctx, id, owner)
   ensures [C04] len(id) == 32 && len(owner) == 25 && R3(old(store)) ==> R3(store)
   ensures notifs == old(notifs)
 
-// removal of the alias record in NNS happens behind defer/recover around a cross-contract call: outside the
-// verifier's subset, contract assumed (what NNS then does is C12)
+// removal of the alias record in NNS happens behind defer/recover around a cross-contract call: a fault of the call may be
+// caught (the function then returns normally, nothing changed here) or re-thrown; what NNS does with the call is C12
 func deleteNNSRecords(ctx, domain)
-  trusted
   ensures store == old(store) && notifs == old(notifs)
 
 func checkNiceNameAvailable(nnsContractAddr, domain) (r)
